@@ -15,6 +15,7 @@ import subprocess
 import sys
 
 VERIF = os.path.dirname(os.path.dirname(os.path.abspath(__file__)))
+BASE = os.environ.get("SEED_BASE_COMMIT", "HEAD")  # the commit of /repo the seeded change is applied to
 
 
 def sh(cmd, cwd=None, timeout=3600):
@@ -41,7 +42,7 @@ def main():
     if not args.skip_confirm:
         scratch = f"/tmp/seedconfirm_{args.name}"
         sh(f"git -C /repo worktree remove --force {scratch}")
-        code, out = sh(f"git -C /repo worktree add --detach {scratch} HEAD")
+        code, out = sh(f"git -C /repo worktree add --detach {scratch} {BASE}")
         assert code == 0, out
         try:
             shutil.copytree(seed, os.path.join(scratch, "seedX"))
@@ -68,7 +69,7 @@ def main():
     if args.scratch:
         target = f"/tmp/seedrun_{args.name}"
         sh(f"git -C /repo worktree remove --force {target}")
-        code, out = sh(f"git -C /repo worktree add --detach {target} HEAD")
+        code, out = sh(f"git -C /repo worktree add --detach {target} {BASE}")
         assert code == 0, out
         env = f"VERIF_REPO={target} "
     else:
